@@ -639,6 +639,9 @@ class Interp:
                 if owner is SLICE:
                     raise Unmodelled('field of unsized place ' + place.text)
                 v = owner[key]
+                if type(v) is BoxV:
+                    # Box internals (Unique / NonNull / pointer): stay on the box; the pointer is recovered by transmute
+                    continue
                 try:
                     owner, key = v.fields, p[1]
                 except AttributeError:
@@ -1227,7 +1230,9 @@ class Interp:
     def transmute(self, v, src_ty, dst_ty):
         if type(v) is Adt and len(v.fields) == 1 and type(v.fields[0]) in (Ref, SliceRef) and dst_ty.startswith('*'):
             return v.fields[0]
-        if dst_ty == 'usize' and type(v) in (Ref, SliceRef):
+        if type(v) is BoxV and dst_ty.startswith('*'):
+            return Ref(v.fields, 0)
+        if dst_ty == 'usize' and not isinstance(v, (int, float)) and type(v) is not Sym:
             return 0x10000
         if src_ty == 'f64' and dst_ty == 'u64':
             if type(v) is Sym:
